@@ -154,7 +154,16 @@ class WatchSpec(SeqSpec):
 
     def gen(self, rng, tier, scale):
         n = int((200 if tier == "quick" else 2400) * scale)
-        return [self.gen_one(rng, ("first-set-race", "groups", "held", "groups", "storm")[i % 5], 3 if tier == "quick" else 4) for i in range(n)]
+        cases = [self.gen_one(rng, ("first-set-race", "groups", "held", "groups", "storm")[i % 5], 3 if tier == "quick" else 4) for i in range(n)]
+        for c in cases:
+            # a third of the scenarios run on Watchable[error] where the value 0 is the nil error; some Sets then set 0
+            if rng.random() < 0.33:
+                c["cfg"]["inst"] = "iface"
+                for th in c["cfg"]["threads"]:
+                    for a in th["prog"]:
+                        if a[0] == "set" and rng.random() < 0.3:
+                            a[1] = 0
+        return cases
 
     def coq_case(self, case, obs):
         ths = []
@@ -193,6 +202,10 @@ class WatchSpec(SeqSpec):
         return "([%s], %d, [%s])" % ("; ".join(ths), int(case["cfg"].get("ngates", 0)), "; ".join(evs))
 
     def oracle(self, case, obs):
+        if case["cfg"].get("inst") == "iface" and any(a[0] == "set" and a[1] == 0 for th in case["cfg"]["threads"] for a in th["prog"]):
+            # the clauses below tell the Sets apart by their (distinct) values; with Set(0) = Set(nil) on Watchable[error]
+            # the value 0 is also the initial one: such histories are judged by the model's matcher alone (sound and complete)
+            return []
         if not quiescent(obs):
             return []
         evs = obs["obs"]
